@@ -2,6 +2,7 @@
 # MANIFEST.setup_cmd: build the Coq development from files on disk (offline)
 cd "$(dirname "$0")/.." || exit 2
 python3 tools/pyx2v.py "${PYTTB_SRC:-/repo}" coq/theories/Gen >/dev/null 2>&1 || cp coq/gen_baseline/*.v coq/theories/Gen/
+if [ -f tools/pyx2v_skel.py ]; then python3 tools/pyx2v_skel.py "${PYTTB_SRC:-/repo}" coq/theories/Gen >/dev/null 2>&1 || cp coq/gen_baseline/*.v coq/theories/Gen/; fi
 /venv/bin/python -c 'import sys; sys.path.insert(0, "tools"); import vcheck; vcheck.ensure_makefile()' || exit 2
 cd coq || exit 2
 timeout 3000 make -k -j16 2>&1 | grep -v '^Closed under the global context' | tail -40
